@@ -465,7 +465,7 @@ func (ig *ingest) fresh(ev *Eval, rule, kind string, m, H *Term) bool {
 		}
 		missing = strings.Join(miss, "; ")
 	}
-	ev.Verdict(rule, props("C04", "C07", "C15", "C11"), "a fresh proposal is stored only after ValidateBlockProposal(ctx of (h,v), h, LeaderOf(v), its block, its hash) succeeded and ctx is still live", kind, ok, missing, guards...)
+	ev.Verdict(rule, props("C04", "C07", "C15", "C11", "C03", "C01"), "a fresh proposal is stored only after ValidateBlockProposal(ctx of (h,v), h, LeaderOf(v), its block, its hash) succeeded and ctx is still live", kind, ok, missing, guards...)
 	return ok
 }
 
@@ -570,7 +570,7 @@ func (ig *ingest) ingC(e *Effect, m *Term) {
 		}
 		missing = strings.Join(miss, "; ")
 	}
-	ev.Verdict("C4", props("C08"), "a network COMMIT is stored only with a verified random-seed share of its sender", "net", ok, missing)
+	ev.Verdict("C4", props("C08", "C03"), "a network COMMIT is stored only with a verified random-seed share of its sender", "net", ok, missing)
 	// must-not: no staleness test on commits
 	ig.exactStaleness(ev, "C5", H, nil)
 }
